@@ -608,4 +608,55 @@ example :
     pushTrace [⟨[⟨202, true⟩], [⟨0, false⟩]⟩, ⟨[⟨200, false⟩], []⟩] [0, 1, 0] [] =
       some ([.req 0 false .post 202, .req 1 false .post 200, .req 0 true .put 0], false) := by decide
 
+/-! ### `handlePull`: the last attempt -/
+
+section
+variable {D : Type} [DecidableEq D]
+
+/-- **`handlePull` says success ⇒ the LAST attempt's model is there.**  Sharpens
+    `handlePull_success_verified`: the attempt whose manifest is complete in the final cache (and
+    linked, F8 aside) is the last `Pull` the loop made — attempt number `handlePullAttempts`, the
+    one that returned nil — not just some attempt of the request (the tag may have been
+    re-published between retries: earlier attempts may have seen another manifest). -/
+theorem handlePull_success_last_attempt_verified (H : Bytes → D) (cfg : Cfg) (hv : cfg.verify = true)
+    (hcol : cfg.staged = true → NoLenCollision H) (as : List (Attempt D)) :
+    ∀ c : Cache D, handlerSaysSuccess (handlePull H cfg c as).2 = true →
+      ∃ k a m, handlePullAttempts H cfg c as = k + 1 ∧ as[k]? = some a ∧ a.man = .ok m ∧
+        (∀ l ∈ m.all, Good H (handlePull H cfg c as).1 l.digest l.size) ∧
+        (cfg.linkShortcut = false → (handlePull H cfg c as).1.links a.name = some m) := by
+  induction as with
+  | nil => intro c h; simp [handlePull, handlerSaysSuccess] at h
+  | cons a as ih =>
+    intro c h
+    unfold handlePull at h ⊢
+    unfold handlePullAttempts
+    by_cases hr : canRetry (pull H cfg c a).2 = true
+    · simp only [hr, if_true] at h ⊢
+      obtain ⟨k, a', m, hk, ha', hm, hg, hl⟩ := ih (pull H cfg c a).1 h
+      exact ⟨k + 1, a', m, by rw [hk], by simpa using ha', hm, hg, hl⟩
+    · simp only [hr] at h ⊢
+      have hok : (pull H cfg c a).2 = .ok := by simpa [handlerSaysSuccess] using h
+      have hpair : pull H cfg c a = ((pull H cfg c a).1, .ok) := by rw [← hok]
+      obtain ⟨m, hm, hg⟩ := pull_success_verified H cfg hv hcol c _ a hpair
+      obtain ⟨m', st, c1, hm', _, _, _, _, _, _, _, hc'⟩ := pull_links_last H cfg c _ a hpair
+      have : m' = m := by rw [hm] at hm'; injection hm' with e; exact e.symm
+      subst this
+      have hlink : cfg.linkShortcut = false → (pull H cfg c a).1.links a.name = some m' := by
+        intro hsc
+        rw [hc']
+        unfold Cache.link
+        split <;> simp [hsc]
+      exact ⟨0, a, m', by simp, by simp, hm, hg, hlink⟩
+end
+
+/-- non-vacuity: a 5xx on the first attempt (served manifest `mABC`, chunk request answered 500), the tag
+    re-published as `mABCD`, the retry succeeds: the model that is there is the LAST attempt's -/
+example :
+    handlerSaysSuccess (handlePull id rcfg Cache.empty
+      [⟨0, .ok mABC, [.list [⟨[97, 98], 0, 2⟩, ⟨[99], 2, 1⟩]], [.release 0 (.fail .status5xx), .release 0 (.body [[99]] .eof)]⟩, o3]).2 = true ∧
+    handlePullAttempts id rcfg Cache.empty
+      [⟨0, .ok mABC, [.list [⟨[97, 98], 0, 2⟩, ⟨[99], 2, 1⟩]], [.release 0 (.fail .status5xx), .release 0 (.body [[99]] .eof)]⟩, o3] = 2 ∧
+    (handlePull id rcfg Cache.empty
+      [⟨0, .ok mABC, [.list [⟨[97, 98], 0, 2⟩, ⟨[99], 2, 1⟩]], [.release 0 (.fail .status5xx), .release 0 (.body [[99]] .eof)]⟩, o3]).1.links 0 = some mABCD := by
+  decide
 end OllamaVerif.C09
